@@ -515,7 +515,10 @@ fn trunc<T: std::fmt::Debug>(t: &T) -> String {
 
 pub fn differential(ctx: &Ctx) -> Report {
     let n = ctx.n(400, 40_000);
-    par_cases(ctx, "differential", n, ctx.secs(40, 900), |i, rng, rep| run_case(i, rng, rep, false))
+    // every case owns four OS threads and two runtimes: keep the number of concurrent cases moderate
+    let mut c2 = ctx.clone();
+    c2.threads = ctx.threads.min(6);
+    par_cases(&c2, "differential", n, ctx.secs(40, 900), |i, rng, rep| run_case(i, rng, rep, false))
 }
 
 pub fn replay(ctx: &Ctx, v: &Value) -> Report {
